@@ -40,9 +40,13 @@ Section Mem.
   | CBytes (bs : list N)              (* backing array of a []byte *)
   | CRdr (r : rdr).
 
-  Definition heap := list (list cell).
+  (* Every cell carries a write counter (ghost: no program can read it).  It lets theorems say "this
+     cell was not written", which is stronger than "this cell has the same content". *)
+  Definition heap := list (list (cell * nat)).
 
-  Definition hget (h : heap) (a : addr) : option cell := nth_error (nth (fst a) h []) (snd a).
+  Definition hgetv (h : heap) (a : addr) : option (cell * nat) := nth_error (nth (fst a) h []) (snd a).
+  Definition hget (h : heap) (a : addr) : option cell :=
+    match hgetv h a with Some (c, _) => Some c | None => None end.
 
   Fixpoint upd {A} (n : nat) (l : list A) (x : A) : list A :=
     match n, l with
@@ -51,7 +55,14 @@ Section Mem.
     | S n', y :: t => y :: upd n' t x
     end.
 
-  Fixpoint set_arena (r : nat) (h : heap) (x : list cell) : heap :=
+  Fixpoint updv (n : nat) (l : list (cell * nat)) (c : cell) : list (cell * nat) :=
+    match n, l with
+    | _, [] => []
+    | O, (_, v) :: t => (c, S v) :: t
+    | S n', y :: t => y :: updv n' t c
+    end.
+
+  Fixpoint set_arena (r : nat) (h : heap) (x : list (cell * nat)) : heap :=
     match r, h with
     | O, [] => [x]
     | O, _ :: t => x :: t
@@ -60,10 +71,10 @@ Section Mem.
     end.
 
   Definition hset (h : heap) (a : addr) (c : cell) : heap :=
-    set_arena (fst a) h (upd (snd a) (nth (fst a) h []) c).
+    set_arena (fst a) h (updv (snd a) (nth (fst a) h []) c).
 
   Definition halloc (r : nat) (h : heap) (c : cell) : heap * addr :=
-    let ar := nth r h [] in (set_arena r h (ar ++ [c]), (r, length ar)).
+    let ar := nth r h [] in (set_arena r h (ar ++ [(c, 0)]), (r, length ar)).
 
   (* ---------------------------------------------------------------- heap programs *)
 
@@ -254,6 +265,8 @@ Arguments CPtr {V} v.
 Arguments CBytes {V} bs.
 Arguments CRdr {V} r.
 Arguments hget {V} h a.
+Arguments hgetv {V} h a.
+Arguments updv {V} n l c.
 Arguments set_arena {V} r h x.
 Arguments hset {V} h a c.
 Arguments halloc {V} r h c.
